@@ -46,8 +46,7 @@ UF = {"add": 0, "multiply": 1, "minimum": 2, "maximum": 3, "logical_or": 4, "log
       "bitwise_or": 6, "bitwise_and": 7, "bitwise_xor": 8}
 METHOD = {"add": "sum", "multiply": "prod", "minimum": "min", "maximum": "max", "logical_or": "any",
           "logical_and": "all"}
-CLAUSE = {3: "reduced_extents_positive", 5: "gcxs_axes_not_permuted_full",
-          11: "gcxs_axes_nonempty", 12: "gcxs_axes_distinct"}
+CLAUSE = {11: "gcxs_axes_nonempty", 12: "gcxs_axes_distinct"}
 NARROW = {"int8": (8, True), "uint8": (8, False), "int16": (16, True), "uint16": (16, False),
           "int32": (32, True), "uint32": (32, False)}
 
@@ -218,6 +217,18 @@ def impl_diff(case):
             e = getattr(np, fn)(d, axis=axis, keepdims=kd)
             if not same(dense_of(r), e, exact=fn not in ("nanmean",)):
                 bad.append(f"values {np.asarray(dense_of(r)).tolist()} vs numpy {np.asarray(e).tolist()}")
+        elif kind == "inffill":
+            fill = float(case["fillv"])
+            d = np.full(tuple(spec["shape"]), fill, dtype="float64")
+            for c, v in zip(spec["coords"], spec["data"], strict=True):
+                d[tuple(c)] = v
+            x = sparse.COO.from_numpy(d, fill_value=fill)
+            if spec["format"] == "gcxs":
+                x = sparse.GCXS.from_coo(x)
+            r = _call(sparse, np, x, case["uf"], case["spelling"], axis, kd)
+            e = getattr(np, case["uf"]).reduce(d, axis=axis, keepdims=kd)
+            if not same(dense_of(r), e, exact=True):
+                bad.append(f"values {np.asarray(dense_of(r)).tolist()} vs numpy {np.asarray(e).tolist()}")
         elif kind == "dtype":
             x = vlib.build_array(spec, dtype=case["in_dtype"])
             d = vlib.spec_dense(spec, dtype=case["in_dtype"])
@@ -237,6 +248,8 @@ def impl_diff(case):
                 getattr(np, kind)(vlib.spec_dense(spec), axis=axis, keepdims=kd)
             elif kind == "dtype":
                 getattr(np, case["uf"]).reduce(vlib.spec_dense(spec, dtype=case["in_dtype"]), axis=axis, keepdims=kd)
+            elif kind == "inffill":
+                getattr(np, case["uf"]).reduce(vlib.spec_dense(spec).astype("float64"), axis=axis, keepdims=kd)
         except Exception:  # noqa: BLE001
             raise_np = True
         if not raise_np:
@@ -300,6 +313,19 @@ def structured_spec(rng, shape, axes, fill, fmt, values):
         k = rng.randint(1, ndim - 1)
         spec["caxes"] = sorted(rng.sample(range(ndim), k))
     return spec
+
+
+def gcxs_clause(spec, axis):
+    """the GCXS axis clause (Model/Reduce.v) that a case falls outside of, if any"""
+    if spec["format"] != "gcxs" or axis is None or isinstance(axis, int):
+        return None
+    if len(axis) == 0:
+        return "gcxs_axes_nonempty"
+    nd = len(spec["shape"])
+    l = [a + nd if a < 0 else a for a in axis]
+    if len(set(l)) != len(l):
+        return "gcxs_axes_distinct"
+    return None
 
 
 def group_kinds(spec, axis):
@@ -443,6 +469,12 @@ def diff_cases(tier, rng):
                     spec3 = vlib.gen_array_spec(rng, shape=shape, fills=(0,), formats=(fmt,), values=vals)
                     cases.append({"kind": "dtype", "uf": uf, "in_dtype": in_dt, "req": req, "spec": spec3, "axis": axis,
                                   "keepdims": kd, "spelling": rng.choice(SPELLINGS[True])})
+                    # non-finite fill values (complete groups must not be "corrected")
+                    uf4 = rng.choice(["add", "multiply", "maximum", "minimum"])
+                    spec4 = vlib.gen_array_spec(rng, shape=shape, fills=(0,), formats=(fmt,), values=(1, 2, 3),
+                                                density=rng.choice([0.5, 1.0, 1.0]))
+                    cases.append({"kind": "inffill", "uf": uf4, "fillv": rng.choice(["inf", "-inf"]), "spec": spec4,
+                                  "axis": axis, "keepdims": kd, "spelling": rng.choice(SPELLINGS[True])})
     return cases
 
 
@@ -601,11 +633,13 @@ def campaign(build, tier, seed, report, budget=1):
     dcount = {}
     for c, r in zip(dc, dres, strict=True):
         name = c["kind"] if c["kind"] != "nan" else c["fn"]
+        if c["kind"] == "inffill":
+            name = "inf_fill:" + c["uf"]
         dcount[name] = dcount.get(name, 0) + 1
         badl = r.get("bad") if isinstance(r, dict) and "bad" in r else [f"harness: {r}"]
         if badl:
             ax = _axis_py(c["axis"])
-            viol.append({"property": "C03", "op": f"diff:{name}", "kind": "value", "clause": None,
+            viol.append({"property": "C03", "op": f"diff:{name}", "kind": "value", "clause": gcxs_clause(c["spec"], c["axis"]),
                          "format": c["spec"]["format"], "what": "; ".join(badl)[:400], "case": c, "impl": badl,
                          "replay_py": f"# differential case {name} axis={ax!r} keepdims={c['keepdims']} spec={json.dumps(c['spec'])}"})
 
